@@ -13,7 +13,8 @@
 // limitations under the License.
 
 //! Exact comparison of Erlang numbers across their representations
-//! (small integer, big integer, float), shared by the owned and borrowed term types.
+//! (small integer, big integer, float) and of bit strings,
+//! shared by the owned and borrowed term types.
 
 use crate::types::BigInt;
 use std::cmp::Ordering;
@@ -139,4 +140,33 @@ pub(crate) fn compare_bigint_float(big: &BigInt, f: f64) -> Ordering {
 
 pub(crate) fn compare_float_bigint(f: f64, big: &BigInt) -> Ordering {
     compare_bigint_float(big, f).reverse()
+}
+
+/// Compares two bit strings bit by bit; a proper prefix sorts first.
+/// `bits` is the number of used bits (counted from the top) of the last byte, 8 for binaries.
+pub(crate) fn compare_bitstrings(a: &[u8], a_bits: u8, b: &[u8], b_bits: u8) -> Ordering {
+    let total = |bytes: &[u8], bits: u8| -> usize {
+        if bytes.is_empty() {
+            0
+        } else {
+            (bytes.len() - 1) * 8 + bits.min(8) as usize
+        }
+    };
+    let a_total = total(a, a_bits);
+    let b_total = total(b, b_bits);
+    let common = (a_total / 8).min(b_total / 8);
+    match a[..common].cmp(&b[..common]) {
+        Ordering::Equal => {}
+        other => return other,
+    }
+    let rest = (a_total - common * 8).min(b_total - common * 8).min(8);
+    if rest > 0 {
+        let shift = 8 - rest as u32;
+        match (a[common] >> shift).cmp(&(b[common] >> shift)) {
+            Ordering::Equal => {}
+            other => return other,
+        }
+    }
+    // unused bits of the last byte are zero in well-formed bit strings; they only break ties
+    a_total.cmp(&b_total).then_with(|| a.cmp(b))
 }
